@@ -48,6 +48,10 @@ def _inputs():
         'compressible-3MiB': [b'2026-10-02 12:00:00 INFO request handled in 12 ms\n' * 20000] * 3,
         'chunk-lengths-multiple-of-65535': [b'abcdefghij' * 13107, (b'0123456789' * 19661)[:196605], b'xyz'],
         'one-byte-repeated-200000': [b'x' * 200000],
+        # chunk sizes of very different magnitude next to each other, all distinguishable (an operator that gathers small
+        # chunks and passes large ones through must keep their order)
+        'small-large-small': [b'header\n', bytes(range(256)) * 300, b'trailer\n', b'A' * 65536, b'z', b'B' * 131073, b'', b'end'],
+        'large-small-large': [b'L' * 70000, b'1', b'2', b'M' * 65535, b'3', b'N' * 65537],
         'incompressible-4.3MiB': [rnd.randbytes(131072) for _ in range(33)] + [rnd.randbytes(70001)],
     }
 
